@@ -218,7 +218,8 @@ BAD_LOCATIONS = [b"http://h:99999/", b"http://h:abc/x", b"http://[::1/", b"http:
 
 def run_client(case):
     # (a redirectable client only in the cases whose redirect cannot be followed: no or a malformed Location)
-    patron, cs = http_doubles.make_patron(method="GET", path="/", redirectable=bool(case.get("redirectable")))
+    patron, cs = http_doubles.make_patron(method="GET", path="/", redirectable=bool(case.get("redirectable")),
+                                          dictable=bool(case.get("dictable")))
     patron.request(method=case["reqmethod"], path="/p")
     arr, last = arrivals(case["sched"], bytes(case["data"]))
     close = case["close"]
@@ -281,6 +282,24 @@ SSE_BODIES = [b"data: a\n\n", b"id: 1\ndata: x\r\n\r\nretry: 5\n\n", b": c\ndata
 
 
 @st.composite
+def json_body(draw):
+    kind = draw(st.sampled_from(["ok", "cut", "deep", "deepdict", "notutf8", "junk"]))
+    if kind == "deep" or kind == "deepdict":
+        n = draw(st.sampled_from([3, 200, 900, 1100, 2500, 20000]))
+        opener, closer = (b"[", b"]") if kind == "deep" else (b'{"a":', b"}")
+        return opener * n + (b"1" if kind == "deepdict" else b"") + closer * draw(st.sampled_from([0, n]))
+    good = draw(st.sampled_from([b'{"a": 1, "b": [true, null, "x"]}', b'[1, 2, {"k": "v"}]', b'"s"', b"12", b"{}"]))
+    if kind == "cut":
+        return good[:draw(st.integers(0, len(good) - 1))]
+    if kind == "notutf8":
+        k = draw(st.integers(0, len(good)))
+        return good[:k] + draw(st.sampled_from([b"\xff", b"\xc3", b"\xed\xa0\x80"])) + good[k:]
+    if kind == "junk":
+        return draw(st.binary(max_size=24))
+    return good
+
+
+@st.composite
 def server_case(draw):
     goods = []
     for _ in range(2):
@@ -307,6 +326,21 @@ def client_case(draw):
             b"Content-Length: %d\r\n\r\n" % len(body) + body
         return {"scene": "client", "data": wire, "mut": "redirect-no-location" if loc is None else "redirect-bad-location",
                 "nt": True, "reqmethod": "GET", "redirectable": True, "sched": draw(schedule(len(wire))),
+                "close": draw(st.one_of(st.none(), st.integers(0, 2)))}
+    if draw(st.integers(0, 9)) == 0:
+        # a body that is declared (or taken by a dictable client) to be JSON and is not decodable: cut short, not UTF-8,
+        # no JSON at all, or nested deeper than the decoder goes (plain body and event stream data)
+        body = draw(json_body())
+        sse = draw(st.integers(0, 2)) == 0
+        dictable = sse or draw(st.booleans())
+        if sse:
+            wire = b"HTTP/1.1 200 OK\r\nContent-Type: text/event-stream\r\n\r\ndata: " + \
+                body.replace(b"\n", b" ").replace(b"\r", b" ") + b"\n\n"
+        else:
+            ctype = draw(st.sampled_from([b"application/json", b"application/json; charset=utf-8", b"text/plain"]))
+            wire = b"HTTP/1.1 200 OK\r\nContent-Type: " + ctype + b"\r\nContent-Length: %d\r\n\r\n" % len(body) + body
+        return {"scene": "client", "data": wire, "mut": "json-sse-data" if sse else "json-body", "nt": True,
+                "reqmethod": "GET", "dictable": dictable, "sched": draw(schedule(len(wire))),
                 "close": draw(st.one_of(st.none(), st.integers(0, 2)))}
     if draw(st.integers(0, 6)) == 0:
         body = draw(st.sampled_from(SSE_BODIES))
